@@ -52,7 +52,14 @@ def r7_conditions(run, tree):
     lay.check_leaf_rule(run, tree)
 
 
-RULES = [r_shared_c15_r5, r1, r2, r3, r4, r6_preselection_history, r7_conditions]
+def r_memo(run, tree):
+    run.rule("C15.R8", "no memoised function on the loading path reads the environment (directory listings, files, clock): which output is the last one, and what a file holds, is looked up at every load",
+             "effect rule over the resolved call graph (functools.lru_cache / cache) with a positive fixture", "", floor=1)
+    from .memo_rules import check_memoised_functions
+    check_memoised_functions(run, tree, modules=("io/", "config/", "units/", "core/dataset"))
+
+
+RULES = [r_shared_c15_r5, r1, r2, r3, r4, r6_preselection_history, r7_conditions, r_memo]
 
 
 def t_load_space(run, tree):
